@@ -922,6 +922,26 @@ class Runner
     void op_reserve(const Op& op)
     {
         const int s = op.a % NSLOT;
+        if (vs[s].m.alive && vs[s].m.moved_from && !vs[s].m.unspecified && (op.d & 1) && vs[s].v->size() == 0)
+        {
+            // reserve has no precondition, so it is valid on a moved-from vector as well (C10 / C18: capacity 0, never
+            // reduces capacity, does not change size()). The slot stays "moved-from" for the model: clear() revives it.
+            Vec& v = *vs[s].v;
+            const std::size_t cap0 = v.capacity();
+            const std::size_t n = op.b % 7 + 1;
+            if constexpr (NV > 0)
+                v.reserve(n, op.c % 65);
+            else
+                v.reserve(n);
+            st.label("reserve_on_moved_from");
+            if (v.capacity() > cap0) vs[s].m.has_table = true;
+            VF_REQUIRE(v.size() == 0 && v.empty(), "reserve_changed_size", "reserve on an empty moved-from vector changed size() to " + std::to_string(v.size()));
+            VF_REQUIRE(v.capacity() >= cap0 && v.capacity() >= n, "reserve_capacity",
+                       "reserve(" + std::to_string(n) + ") on a moved-from vector with capacity " + std::to_string(cap0) + " left capacity() == " + std::to_string(v.capacity()));
+            VF_REQUIRE(v.begin() == v.end() && v.data_begin() == v.data_end(), "empty_vector_range", "moved-from vector after reserve: begin() != end() or data_begin() != data_end()");
+            if (prop == 10 || prop == 18) nt_flag = true;
+            return;
+        }
         ensure(s, op);
         MVec& m = vs[s].m;
         Vec& v = *vs[s].v;
